@@ -316,6 +316,41 @@ def check_payload_untouched(chk, cfg, m, fn):
            ("" if not bad else ": %s at %s" % (bad[0].kind, bad[0].inst.loc)), fn.loc, fn.name)
 
 
+def check_init_leaves_pool(chk, cfg, m):
+    """G5.init-leaves-pool: messageq_init describes the queue, it does not touch the caller's memory: a write through its pool
+    argument (a clearing memset, say) reaches the trailing bytes that make up no whole message unless its length is exactly
+    queue_len * msg_len - and the static initialiser, which cannot write the pool at all, would describe a different queue."""
+    if not m.has_fn("messageq_init"):
+        return
+    fn = m.fn("messageq_init")
+    for p in paths.enumerate_paths(fn, m):
+        if paths.is_assert_fail_path(p):
+            continue
+        wr = [e for e in p.events if e.kind in ("store", "memset", "memcpy") and e.ptr is not None and ptr_parts(e.ptr)[0] == ("arg", 1)]
+
+        def whole_messages(ln):
+            ln = strip_casts(ln) if ln is not None else None
+            if ln is None or ln[0] != "b" or ln[1] != "mul":
+                return False
+            for a, b in ((ln[3], ln[4]), (ln[4], ln[3])):
+                a, b = strip_casts(a), strip_casts(b)
+                if a[0] == "b" and a[1] == "udiv" and strip_casts(a[3]) == ("arg", 2) and strip_casts(a[4]) == ("arg", 3) and b == ("arg", 3):
+                    return True
+            return False
+        ok_len = [e for e in wr if e.kind == "memset" and ptr_parts(e.ptr)[1:] == (0, ()) and whole_messages(e.extra)]
+        other = [e for e in wr if e not in ok_len and not (e.kind == "memset" and strip_casts(e.extra) == ("arg", 2))]
+        if other:
+            chk.unknown("G5.init-leaves-pool", "messageq_init[%s]" % cfg, "messageq_init writes the pool in a way this rule has no model of "
+                        "(%s at %s)" % (other[0].kind, other[0].inst.loc), other[0].inst.loc)
+            continue
+        wr = [e for e in wr if e not in ok_len]
+        chk.ob("G5.init-leaves-pool", "messageq_init[%s]" % cfg, not wr,
+               "messageq_init writes the descriptor and at most the whole messages of the pool" if not wr else
+               "messageq_init writes the caller's pool (%s of %s bytes at %s): bytes that are part of no whole message are touched, and the "
+               "queue is not the one MESSAGEQ_VAR_INIT describes" % (wr[0].kind, fmt(wr[0].extra)[:30] if wr[0].extra is not None else wr[0].size,
+                                                                     wr[0].inst.loc), (wr[0].inst.loc if wr else fn.loc), fn.name)
+
+
 def check_macro_arguments(chk, cfg):
     from . import macrohyg
     B = macrohyg.W_BASE
@@ -348,6 +383,9 @@ def run_config(chk, cfg):
             n_addr += check_addressing(chk, cfg, m, fn, "send")
         if m.unit == "librfn/messageq.c" or fn.name.startswith("messageq_"):
             check_payload_untouched(chk, cfg, m, fn)
+    for m in mods:
+        if m.unit == "librfn/messageq.c":
+            check_init_leaves_pool(chk, cfg, m)
     chk.expect("G2", "receive-side advances [%s]" % cfg, n_adv, 1)
     chk.expect("G3", "addressing sites [%s]" % cfg, n_addr, 3)
     # send-side advance, CAS hand-out (C04.R4), flag protocol and empty() sibling (C04.R5)
